@@ -180,12 +180,21 @@ def run(chk, replay=None):
                         hist['agree'] += 1
                     else:
                         bad += 1
-                if bad >= 2 or bad == 99 or (bad == 1 and X.discrete(t)):
+                if bad and bad != 99 and pr == 'C' and X.has_int_division(t) and 'C03-integer-division-of-truth-values' in kf:
+                    if not hist.get('known_integer_division'):
+                        chk.known_finding(kf['C03-integer-division-of-truth-values']['what'])
+                    hist['known_integer_division'] = hist.get('known_integer_division', 0) + 1
+                elif bad >= 2 or bad == 99 or (bad == 1 and X.discrete(t)):
                     orafail.append((pr, t, code, ref, vals))
                 elif bad == 1:
                     hist['numerically_fragile_discarded'] += 1
         return codes, disagree, flagbad, orafail, nval
     hist = {'agree': 0, 'undefined_skipped': 0, 'numerically_fragile_discarded': 0}
+    kf = {f['id']: f for f in known_findings()['findings'] if f['property'] == 'C03'}
+    if not replay:
+        # the input of known finding C03-integer-division-of-truth-values, always replayed: (x0 <= x0) / ((x0 <= x0) + (x1 <= x1)) = 1/2
+        one = lambda v: ('LEQ', ('ci', v), ('ci', v))
+        trees = trees + [('DIVIDE', one('x0'), ('PLUS', one('x0'), one('x1')))]
     codes, disagree, flagbad, orafail, nval = evaluate(trees)
     if orafail and not replay:
         # shrink: the smallest failing subtrees of the smallest failures
